@@ -660,7 +660,7 @@ def generate(rng, tier, n):
         cases.append(_falsy(rng, i))
     for i in range(max(40, n // 8)):
         cases.append(_reassign(rng, i))
-    for i in range(max(120, n // 3)):
+    for i in range(max(90, n // 5)):
         cases.append(_ctor_history(rng, i))
     return cases
 
